@@ -56,7 +56,7 @@ Judge(line) ==
   ELSE LET j == FirstDev(line, 1) IN
        IF j > 0
        THEN PrintT(<<"JUDGE", line.i, "dev", ToJson(DevOrder[j]), ToJson(Brief(d0))>>)
-       ELSE PrintT(<<"JUDGE", line.i, "mismatch", ToJson(Brief(d0))>>)
+       ELSE PrintT(<<"JUDGE", line.i, "mismatch", ToJson(d0)>>)
 
 Init == l = 1
 Next == l <= Len(Rec) /\ Judge(Rec[l]) /\ l' = l + 1
